@@ -32,7 +32,9 @@ def build_repo(desc):
     git(d, 'init', '-q', '-b', 'trunk')
     open(os.path.join(d, 'f'), 'w').write('0\n')
     open(os.path.join(d, '.gitignore'), 'w').write('*.log\n')
-    git(d, 'add', 'f', '.gitignore')
+    os.makedirs(os.path.join(d, 'sub'), exist_ok=True)
+    open(os.path.join(d, 'sub', 'file.txt'), 'w').write('0\n')
+    git(d, 'add', 'f', '.gitignore', 'sub/file.txt')
     tree = git(d, 'write-tree')
     hs = {}
     base = 1_600_000_000
@@ -67,6 +69,20 @@ def build_repo(desc):
         git(d, 'add', 'f')
     elif dirty == 'ignored_only':
         open(os.path.join(d, 'x.log'), 'w').write('x')
+    elif dirty == 'deleted':
+        os.remove(os.path.join(d, 'f'))
+    elif dirty == 'staged_and_modified':
+        open(os.path.join(d, 'f'), 'w').write('2\n')
+        git(d, 'add', 'f')
+        open(os.path.join(d, 'f'), 'w').write('3\n')
+    elif dirty == 'modified_and_untracked':
+        open(os.path.join(d, 'f'), 'w').write('1\n')
+        open(os.path.join(d, 'new.txt'), 'w').write('x')
+    elif dirty == 'modified_long_path':
+        open(os.path.join(d, 'sub', 'file.txt'), 'w').write('1\n')
+    elif dirty == 'staged_new':
+        open(os.path.join(d, 'n'), 'w').write('x')
+        git(d, 'add', 'n')
     return d, hs
 
 
@@ -156,7 +172,7 @@ def run_real(desc, fmt):
         why.append('commit hash')
     if data['current_branch'] != desc.get('branch'):
         why.append('branch %r, expected %r' % (data['current_branch'], desc.get('branch')))
-    want_dirty = desc.get('dirty') in ('untracked', 'modified', 'staged')
+    want_dirty = desc.get('dirty') not in (None, 'clean', 'ignored_only')
     if data['is_dirty'] != want_dirty:
         why.append('dirty %r, expected %r' % (data['is_dirty'], want_dirty))
     return r, hs, dict(ok=not why, why=why)
@@ -184,7 +200,7 @@ def desc_of_world(world, annotated=False):
     tags = {t: (loc, annotated or t in (world.get('annotated') or [])) for t, loc in world['tags'].items() if loc >= 0}
     br = world.get('branch')
     return dict(commits=commits, head=0, branch=br if br else None, side={'side': k}, tags=tags, dates=dates,
-                dirty='untracked' if world.get('status') else None)
+                dirty=world.get('status') or None)
 
 
 def random_desc(rng, fmt_tags):
@@ -206,4 +222,4 @@ def random_desc(rng, fmt_tags):
     for t in rng.sample(fmt_tags, rng.randint(0, min(4, len(fmt_tags)))):
         tags[t] = (rng.randrange(n), rng.random() < 0.5)
     return dict(commits=commits, head=head, branch=rng.choice([None, 'trunk', 'feature/x']), side={'other': n - 1}, tags=tags,
-                dirty=rng.choice([None, None, 'untracked', 'modified', 'staged', 'ignored_only']))
+                dirty=rng.choice([None, None, 'untracked', 'modified', 'staged', 'ignored_only', 'deleted', 'staged_and_modified', 'modified_and_untracked', 'modified_long_path', 'staged_new']))
